@@ -35,7 +35,19 @@ config labels rewritten although no pixel depends on them; generation counters t
 switches; a refused request (assert) that poisons a lock or leaves the FPU control word changed; exponents
 of +-2^31 or exact power-of-two bases in powf; branches taken when two cone responses tie bit-exactly;
 early-exit convergence tests in a multi-lane Newton iteration; fallbacks for badly conditioned matrices;
-tie-breaking in a reordered dot product."""
+tie-breaking in a reordered dot product;
+worker pools / band splits whose size depends on available_parallelism() (0 workers on one CPU, band heights
+that break chroma-row alignment); align_to / SIMD paths that assume 16-byte aligned allocations; large stack
+arrays that overflow small thread stacks; thread-locals with destructors used during thread teardown; fallbacks
+taken when an allocation is refused; clone_from() that forgets a field; provenance flags ("produced by our own
+encoder, so in nominal range"); comparing against the unresolved config instead of the resolved one; -0.0
+handled by bit tricks or sign tests; constructors that normalise data (hue 360 -> 0); fast paths for special
+powf exponents (0.5, 1.5, 2/3, -1, -0.5) and a zero base; flushing subnormal results; fused transfer+primaries
+passes that pick the wrong direction for one curve family; per-pixel "equal channels" shortcuts with a merged
+condition; whole-frame "solid colour" / "greyscale" shortcuts with a flawed test; early returns for images
+without pixels that lose the dimensions; fast paths keyed on ss_x only (4:4:0 / 4:1:1 forgotten); hand-written
+inverse fast paths for block-diagonal or triangular matrices; short-circuit `||` chains over resolver steps;
+enum code points conflated across fields (Identity vs Reserved0)."""
 
 
 def sh(cmd, cwd=None):
@@ -84,8 +96,10 @@ Produce **two independent mutations** of the crate's source (`src/**`, `yuvxyb-m
    sizes, letterboxed, > 2^24 pixels, > 65536 columns) and paddings/strides/hand-built plane layouts;
    in-domain values surrounded by NaN/inf/out-of-range neighbours; repeated, reordered and interleaved call
    sequences (also 100k+ calls) on one thread, on fresh threads and concurrently from a cold process; by-value
-   and by-reference entry points; with and without a logger installed; default, FMA, `--no-default-features`
-   and debug/overflow-checked builds; Miri and AddressSanitizer. Find what such a reviewer would still miss.
+   and by-reference entry points, cloned and refilled images; with and without a logger installed; pinned to
+   1, 2, 3 and 16 CPUs; with an allocator that never aligns to 16 bytes; on 128 KiB thread stacks and during
+   thread teardown; default, FMA, `--no-default-features` and debug/overflow-checked builds; Miri and
+   AddressSanitizer. Find what such a reviewer would still miss.
    Do not delete functionality wholesale, do not make the code panic everywhere. Do not touch
    `#[cfg(test)]` code, tests, benches, or the `verif` module / hook lines (`#[cfg(feature = "verif-hooks")]`).
    Prefer defects with a trigger that real users would hit sooner or later over ones that need a
